@@ -31,8 +31,10 @@
 //   - a full forward iteration is the input, a full backward iteration its reverse,
 //   - OffsetOf never decreases as the key grows,
 //   - on a damaged file (strict options) every operation answers with the original answer (a filtered lookup
-//     may give the unfiltered answer: a damaged filter block makes the reader drop the filter) or with a
-//     corruption error, and nothing panics.
+//     may give the unfiltered answer: a damaged filter or metaindex block makes the reader drop the filter; OffsetOf
+//     beyond the last key may then answer with the metaindex offset instead of the filter offset) or with a
+//     corruption error, and nothing panics,
+//   - the three damage classes of repairs.go (metaindex block, footer handles, short reads through a warm pool).
 //
 // Known finding (reported through Sink.Note, not compared): on an EMPTY table an iterator with non-nil Start and
 // non-nil Limit reports "entries offset not aligned" instead of yielding nothing.
@@ -72,11 +74,12 @@ type Sizes struct {
 	DamageAll     int // … all positions if the checksummed part is at most this long, else DamageSample + block edges
 	DamageSample  int
 	SnappyStreams int // hand-built / mutated snappy block streams decoded by snappy.Decode and by the model
+	RepairMaxFile int // tables up to this many bytes get the reader-repair classes (repairs.go)
 }
 
 // DefaultSizes: ≥ 600 tables.
 func DefaultSizes() Sizes {
-	return Sizes{Tables: 700, DamageMaxFile: 1500, DamageAll: 220, DamageSample: 40, SnappyStreams: 1500}
+	return Sizes{Tables: 700, DamageMaxFile: 1500, DamageAll: 220, DamageSample: 40, SnappyStreams: 1500, RepairMaxFile: 6000}
 }
 
 // nilSep orders like bytes.Compare and never shortens a key (driver comparer id "nilsep").
@@ -286,13 +289,18 @@ func classify(err error) string {
 
 // runOps answers the ops on a real reader; a panic is reported as "PANIC(...)".
 func runOps(file []byte, c *Case, cached bool, ops []string) (res []string) {
-	o := c.options()
 	var cg *cache.NamespaceGetter
 	var bp *util.BufferPool
 	if cached {
 		cg = &cache.NamespaceGetter{Cache: cache.NewCache(cache.NewLRU(1 << 20)), NS: 1}
 		bp = util.NewBufferPool(c.BlockSize + 5)
 	}
+	return runOpsWith(file, c, cg, bp, ops)
+}
+
+// runOpsWith: runOps on a reader with the given block cache and buffer pool (either may be nil).
+func runOpsWith(file []byte, c *Case, cg *cache.NamespaceGetter, bp *util.BufferPool, ops []string) (res []string) {
+	o := c.options()
 	res = make([]string, 0, len(ops))
 	var r *table.Reader
 	func() {
@@ -311,13 +319,22 @@ func runOps(file []byte, c *Case, cached bool, ops []string) (res []string) {
 			}
 		}
 	}()
-	if len(res) > 0 {
+	if len(res) > 0 || r == nil {
 		return
 	}
-	defer r.Release()
-	for _, op := range ops {
-		res = append(res, runOp(r, op))
+	for i, op := range ops {
+		a := runOp(r, op)
+		res = append(res, a)
+		if strings.HasPrefix(a, "PANIC") {
+			// a panic inside the block cache's load callback leaves the cache node locked: the reader is not used
+			// (nor released) any further, the remaining operations carry the same answer
+			for range ops[i+1:] {
+				res = append(res, a)
+			}
+			return
+		}
 	}
+	r.Release()
 	return
 }
 
@@ -528,11 +545,13 @@ type Stats struct {
 	Tables, MultiBlock, WithFilter, Big, FileBytes, ReadOps, Damaged, DamageOps, Known int
 	Compressed, CompressedBlocks, SnappyStreams, SnappyBad                             int
 	BiterWalks, BiterMoves, BiterSliced                                                int
+	Repairs                                                                            RepairStats
 }
 
 // Run generates sz.Tables cases.
 func Run(r *rand.Rand, sz Sizes, s *wp.Sink) Stats {
 	var st Stats
+	footerAllocSeen = false
 	for i := 0; i < sz.Tables && s.TimeLeft(); i++ {
 		one(r.Int63(), i, sz, s, &st)
 	}
@@ -720,6 +739,9 @@ func one(seed int64, index int, sz Sizes, s *wp.Sink, st *Stats) {
 	// 3b. walks of the real blockIter (index block, data blocks; unsliced and sliced)
 	biterCases(c, file, blks, qs, r, s, st, viol)
 
+	// 3c. the reader repairs: metaindex damage, footer handles, short reads through a warm pool (repairs.go)
+	readerRepairs(c, file, blks, ops, g1, r, sz, s, st, viol)
+
 	// 4. single-byte damage inside checksummed blocks
 	if len(file) > sz.DamageMaxFile {
 		return
@@ -762,7 +784,7 @@ func one(seed int64, index int, sz Sizes, s *wp.Sink, st *Stats) {
 				unf = g1[i-1]
 			}
 			for _, a := range []string{d1[i], d2[i], d3[i], d4[i]} {
-				if a != "corrupt" && a != g1[i] && a != unf {
+				if !acceptable(ops[i], a, g1[i], unf, len(file)) {
 					viol("damage", "byte %d (%c block) altered, op %s: answer %s, original %s", p, hb.kind, ops[i], a, g1[i])
 				}
 			}
